@@ -30,7 +30,7 @@ CHECKS.update({
     "C04": dict(
         text="Every statement skeleton of the reference grammar (/verif/spec/grammar.py; terminals are token classes decided by the solver, "
              "operator slots cover all spellings, joint bits free) is executed through the real parser (MIR); obligation on every path: no "
-             "Error event. Failures are replayed natively; parser gaps already known are listed in known_findings.json by solver-checked pattern.",
+             "Error event (incl. open-ended ranges, old-style registers without designator, identifier iterables, trailing commas in sets). Failures are replayed natively; parser gaps already known are listed in known_findings.json by solver-checked pattern.",
         note="Trusted: the skeleton grammar is a faithful excerpt of the OpenQASM 3 grammar; MIR dump, stubs, z3. Bounds: expression depth 1 "
              "(quick) / 2 (thorough), statements <= 16 / 28 tokens; identifier and literal texts are outside (C15).",
         technique=MC, design="6/C04"),
@@ -40,10 +40,11 @@ CHECKS.update({
              "the parser's nesting is compared with a reference precedence-climbing parser over the OpenQASM 3 table. Part (b): the hand-written "
              "typed accessors of oq3_syntax::ast (if condition / then / else in all block / single-statement combinations, while and for bodies, "
              "range start / step / stop, binary lhs / rhs / operator for every spelling, prefix operator, indexed-identifier name, assignment "
-             "target / value, gate-call and call names, gate angle vs qubit parameters) are executed from MIR on the tree the real parser built "
+             "target / value with plain and indexed targets, gate-call and call names, gate angle vs qubit parameters) and the GENERATED accessors of the "
+             "same roles (RangeExpr::thestart/step/stop, Gate::qubit_args, WhileStmt::loop_body, AssignmentStmt::indexed_identifier) are executed from MIR on the tree the real parser built "
              "and the node each returns is compared by text span with the constituent in that role; constituent atoms are solver choices.",
         note="Trusted: operator table in /verif/spec/grammar.py; rowan tree model (part b); MIR dump, stubs, z3. Bounds: <= 3 operators (quick) / 4 "
-             "(thorough) per expression; 19 role programs x 5 atom kinds per constituent, 23 operator spellings. Part (b) violations are not re-run "
+             "(thorough) per expression; 35 role programs x 5 atom kinds per constituent, 23 operator spellings. Part (b) violations are not re-run "
              "natively (the accessors' only observable is the node they return; C06 observes the same roles through the analyser).",
         technique=MC, design="6/C05"),
     "C10": dict(
@@ -98,7 +99,9 @@ CHECKS.update({
              "constrained by its regex via an NFA->SMT encoding; keywords and punctuation verbatim) are written with every separator the "
              "fusion rules allow and run through the real LexedStr::new (MIR of oq3_lexer + oq3_parser). Proved on every path: the non-trivia "
              "tokens are exactly the lexemes with the expected kinds and exact texts, nothing but trivia in between, no lexical error; each "
-             "keyword is also placed next to one fully symbolic character (keyword kind iff the character cannot continue an identifier).",
+             "keyword is also placed next to one fully symbolic character (keyword kind iff the character cannot continue an identifier); the "
+             "run-to-end-of-line lexemes (pragma, #pragma, annotation, line comment with symbolic text) end before LF, CRLF and CR and the next "
+             "line starts a new lexeme.",
         note="Trusted: lexeme grammar excerpt, MIR dump, string model, Unicode tables clipped to the stated code-point range, z3. Bounds: "
              "symbolic characters in U+0000..U+03FF, identifiers <= 3 chars, literals <= 5 chars, pairs of lexemes (quick: every class against "
              "12 representative neighbours on both sides; thorough: all pairs).",
@@ -187,10 +190,10 @@ CHECKS.update({
     "C09": dict(
         text="Declarations whose width / register-length literal is a string of 1-11 SYMBOLIC decimal digits (all values up to 10^11 > 2^33), "
              "for every scalar type, const / non-const, qubit registers, input/output, inside every scope kind, and const-identifier "
-             "designators (`const int n = V; int[n] x;`, negative, non-const) are analysed from MIR. Proved for every digit string of a path: "
+             "designators (`const T n = V; int[n] x;` with T int / uint / widthed / float / complex / angle / bool, negative, non-const) are analysed from MIR. Proved for every digit string of a path: "
              "no diagnostic => the symbol table records exactly the written constructor, const-ness and width (absent when not written); a "
-             "value above 2^32-1, a negative or a non-constant designator => a diagnostic. Gate (0-4 angle parameters x 1-4 qubits) and "
-             "subroutine signatures and parameter types are compared structurally; SymbolTable::gates() after `include \"stdgates.inc\"` "
+             "value above 2^32-1, a negative, non-constant or non-integer designator => a diagnostic. Gate (0-4 angle parameters x 1-4 qubits) and "
+             "subroutine signatures and parameter types (incl. old-style creg / qreg parameters) are compared structurally; SymbolTable::gates() after `include \"stdgates.inc\"` "
              "is compared with the standard-library table written from the OpenQASM 3 specification.",
         note="Trusted: u128::from_str_radix model (exact bit-vector arithmetic over the digit characters), tree / map / string models, MIR dump, "
              "z3; counterexamples are confirmed by engine==native on the concrete text. Bounds: decimal widths of <= 11 (quick) / 12 digits; "
@@ -201,8 +204,8 @@ CHECKS.update({
     "C13": dict(
         text="A preamble declares one symbol per role (int, const int, bit, qubit, qubit register, duration, gates of arity 0/1 and 2/2, a "
              "one-parameter subroutine); in the statement templates (gate calls with 0-4 parameters, 1-3 operands, none/inv/pow modifiers; "
-             "measure / reset / measure-assignment; binary operators; subroutine calls; assignments; qubit / gate / def declarations in 9 scope "
-             "kinds; return; delay) the identifiers are symbolic characters over the role pool plus the built-in U and an undeclared name. The "
+             "measure / reset / measure-assignment; binary operators on symbols and on register elements; subroutine calls; assignments to symbols "
+             "and to elements of const / non-const registers; qubit / gate / def declarations in 9 scope kinds; return; delay) the identifiers are symbolic characters over the role pool plus the built-in U and an undeclared name. The "
              "rules of the property are z3 formulas over those characters and are PROVED per path against the concrete diagnostics of the real "
              "analyser (MIR): both directions of each if-and-only-if, and `a program that does none of these gets none of these diagnostics`.",
         note="Trusted: the rule formulas (vf/h_c13.py), tree / map / string models, MIR dump, z3; counterexamples confirmed by engine==native "
@@ -213,11 +216,13 @@ CHECKS.update({
 CHECKS.update({
     "C08": dict(
         text="`T1[W1] v; T2[W2] x = VALUE;` and `...; x = VALUE;` for every ordered pair of the 9 scalar types, widths absent or SYMBOLIC decimal "
-             "digits, const / non-const, VALUE a variable, const variable, arithmetic on it, negation, parenthesis, cast, a literal of each of "
-             "9 classes, or a measurement, analysed from MIR. Proved for all widths of a path: identifier / literal / cast / arithmetic / "
+             "digits, const / non-const, VALUE a variable, const variable, arithmetic on it (two variables of different kinds with + - * /), "
+             "negation, parenthesis, cast to the target and to the value's own type, a literal of each of 9 classes, or a measurement (qubit, "
+             "register, register element), analysed from MIR. Proved for all widths of a path: identifier / literal / cast / arithmetic / "
              "measurement nodes carry the prescribed type; no diagnostic on the statement => the stored value's type equals the target type "
              "up to const-ness; kind-lowering conversions and negative literal -> uint are diagnosed; same kind, non-constant value, W2 < W1 "
-             "=> diagnosed.",
+             "=> diagnosed; an operand is never cast DOWN the numeric tower for an arithmetic operation; one element of a register measures "
+             "to one bit.",
         note="Trusted: the conversion table written from the property text (vf/h_c08.py downward()), tree / map / string models, MIR dump, z3; "
              "counterexamples confirmed by engine==native on the concrete text. Bounds: widths of 1 (quick) / 1-2 digits, one value "
              "expression of depth <= 1; subroutine-call values and arrays outside.",
